@@ -106,6 +106,7 @@ func exec(p prog, c *hx.Case) error {
 	loc := coord.NewLoc("/job")
 	defer loc.ReleaseAll()
 	events := make(chan string, 256)
+	pubsExpected := 0 // checkpoints the current incarnation of the job completed: each ends in an event or an error
 	errc := make(chan error, 256)
 	// each incarnation of the job process has its own view of the storage and its
 	// own channels; a replaced incarnation is dead: what its goroutines still do
@@ -131,6 +132,8 @@ func exec(p prog, c *hx.Case) error {
 		client = loc.Client()
 		retained = make(chan []uint64) // unbuffered, as the job creates it
 		errc = make(chan error, 256)
+		events = make(chan string, 256)
+		pubsExpected = 0
 		s := snapshots.NewStore(&snapshots.NewStoreParams{FileStore: client, SavepointsPath: "savepoints", CheckpointsPath: "checkpoints",
 			CheckpointEvents: events, ErrChan: errc, RetainedCheckpointsUpdated: retained})
 		s.RegisterSourceSplitter(&splitter{})
@@ -264,6 +267,7 @@ func exec(p prog, c *hx.Case) error {
 				return hx.Errf("step %d: AddSourceSnapshot: %v", step, err)
 			}
 			completedIDs = append(completedIDs, id)
+			pubsExpected++
 			// the publication goroutine has started its write (or is held at it)
 			// (publications are serialized: behind a held write the next one queues up
 			// without starting its own write)
@@ -324,6 +328,22 @@ func exec(p prog, c *hx.Case) error {
 	loc.SetHold("write", false)
 	loc.SetHold("remove", false)
 	releaseAllPubs()
+	// every publication of the current incarnation reports its end (an event, or an
+	// error); retention notifications keep being received meanwhile
+	deadline := time.Now().Add(10 * time.Second)
+	for got := 0; got < pubsExpected; {
+		select {
+		case <-events:
+			got++
+		case err := <-errc:
+			return hx.Errf("publication failed: %v", err)
+		case ids := <-retained:
+			notes = append(notes, ids)
+			applyRetention(ids)
+		case <-time.After(time.Until(deadline)):
+			return &hx.Inconclusive{Why: "publications did not finish in time"}
+		}
+	}
 	recvAll(3 * time.Millisecond)
 	select {
 	case err := <-errc:
